@@ -27,6 +27,7 @@ type Cfg struct {
 	NoSettings bool // default settings only
 	NoHooks    bool
 	Binary     bool // running under binary_log (no effect on generation, recorded only)
+	Tree       bool // derivation trees, interleaved steps/events, several open events
 }
 
 func DefaultCfg() Cfg { return Cfg{MaxOps: 6, MaxDepth: 3} }
@@ -36,6 +37,9 @@ type G struct {
 	cfg  Cfg
 	set  Settings
 	nkey int
+
+	compositeOnly bool
+	inFields      bool
 }
 
 func NewG(t *rapid.T, cfg Cfg) *G { return &G{t: t, cfg: cfg} }
@@ -263,6 +267,15 @@ func (g *G) Iface(depth int, label string, jsonable bool) *Iface {
 	if !jsonable {
 		kinds = append(kinds, "unmarshalable", "objmarshaler", "rawmsg")
 	}
+	if g.compositeOnly {
+		// Fields() handles string/int64/float64/bool/nil/RawMessage natively: only
+		// values that reach its reflection arm are drawn here
+		g.compositeOnly = false
+		kinds = []string{"struct", "ptrnil", "list", "map"}
+		if !jsonable {
+			kinds = append(kinds, "unmarshalable", "objmarshaler")
+		}
+	}
 	k := rapid.SampledFrom(kinds).Draw(t, label+".k")
 	i := &Iface{K: k}
 	switch k {
@@ -444,6 +457,7 @@ func (g *G) Scalar(typ string, depth int, label string) Val {
 	case "err", "anerr":
 		g.errInto(&v, label)
 	case "iface", "any":
+		g.compositeOnly = g.inFields
 		v.If = g.Iface(depth, label+".if", false)
 	case "type":
 		v.If = g.Iface(1, label+".ty", false)
@@ -554,7 +568,10 @@ func (g *G) ValOf(typ, where string, depth int, label string) Val {
 				continue
 			}
 			seen[string(k)] = true
-			v.Ops = append(v.Ops, Op{K: k, V: g.Val("fields", depth-1, label+".fv")})
+			g.inFields = true
+			fv := g.Val("fields", depth-1, label+".fv")
+			g.inFields = false
+			v.Ops = append(v.Ops, Op{K: k, V: fv})
 		}
 		return v
 	}
@@ -651,16 +668,36 @@ func (g *G) Steps(label string, maxSteps int) []Step {
 	n := rapid.IntRange(0, maxSteps).Draw(t, label+".nsteps")
 	var steps []Step
 	hid := 0
+	// canUpdate[i]: node i is a logger just produced by With() (possibly updated since)
+	// and nothing has been derived from it yet
+	canUpdate := map[int]bool{}
+	alias := map[int]int{} // update steps alias their parent node
+	resolve := func(i int) int {
+		for {
+			a, ok := alias[i]
+			if !ok {
+				return i
+			}
+			i = a
+		}
+	}
 	for i := 0; i < n; i++ {
+		parent := i - 1
+		var from *int
+		if g.cfg.Tree && i > 0 && rapid.IntRange(0, 2).Draw(t, label+".branch") == 0 {
+			f := rapid.IntRange(-1, i-1).Draw(t, label+".from")
+			from = &f
+			parent = f
+		}
 		kinds := []string{"with", "with", "with", "level", "output", "sample"}
 		if !g.cfg.NoHooks {
 			kinds = append(kinds, "hook", "hook")
 		}
-		if len(steps) > 0 && steps[len(steps)-1].Kind == "with" {
+		if parent >= 0 && canUpdate[resolve(parent)] {
 			kinds = append(kinds, "update", "update")
 		}
 		k := rapid.SampledFrom(kinds).Draw(t, label+".sk")
-		st := Step{Kind: k}
+		st := Step{Kind: k, From: from}
 		switch k {
 		case "with", "update":
 			st.Ops = g.Ops("context", g.cfg.MaxDepth-1, label+".cops")
@@ -675,6 +712,14 @@ func (g *G) Steps(label string, maxSteps int) []Step {
 		case "sample":
 			st.Sampler = rapid.SampledFrom([]string{"all", "all", "all", "basic"}).Draw(t, label+".smp")
 			st.N = uint32(rapid.IntRange(1, 2).Draw(t, label+".smpn"))
+		}
+		if k == "update" {
+			alias[i] = parent
+		} else {
+			if parent >= 0 {
+				canUpdate[resolve(parent)] = false
+			}
+			canUpdate[i] = k == "with"
 		}
 		steps = append(steps, st)
 	}
@@ -701,14 +746,69 @@ func (g *G) Event(label string) EventSpec {
 	return ev
 }
 
-// Program draws a complete program.
+// Program draws a complete program. With cfg.Tree the derivation is a tree, events pick
+// any node, and steps, events and open/finish halves of events are interleaved.
 func (g *G) Program(maxSteps, maxEvents int) *Program {
+	t := g.t
 	p := &Program{}
 	p.Set = g.Settings()
 	p.Steps = g.Steps("steps", maxSteps)
-	n := rapid.IntRange(1, maxEvents).Draw(g.t, "nevents")
+	n := rapid.IntRange(1, maxEvents).Draw(t, "nevents")
 	for i := 0; i < n; i++ {
 		p.Events = append(p.Events, g.Event("ev"))
 	}
+	if !g.cfg.Tree {
+		return p
+	}
+	// interleave: each event is placed after a random prefix of the steps and logs through a
+	// node that exists by then; some events are opened early and finished later
+	type slot struct{ after int } // number of steps executed before the event
+	var order []Act
+	pos := make([]int, n)
+	for j := 0; j < n; j++ {
+		pos[j] = rapid.IntRange(0, len(p.Steps)).Draw(t, "ev.after")
+	}
+	// events keep their index order among themselves: sort positions
+	for a := 1; a < n; a++ {
+		for b := a; b > 0 && pos[b] < pos[b-1]; b-- {
+			pos[b], pos[b-1] = pos[b-1], pos[b]
+		}
+	}
+	var openEv []int
+	si := 0
+	closeSome := func(force bool) {
+		for len(openEv) > 0 && (force || rapid.Bool().Draw(t, "ev.close")) {
+			k := rapid.IntRange(0, len(openEv)-1).Draw(t, "ev.closewhich")
+			order = append(order, Act{"fin", openEv[k]})
+			openEv = append(openEv[:k], openEv[k+1:]...)
+		}
+	}
+	for j := 0; j < n; j++ {
+		for si < pos[j] {
+			order = append(order, Act{"step", si})
+			si++
+			closeSome(false)
+		}
+		if pos[j] > 0 || len(p.Steps) == 0 {
+			nd := rapid.IntRange(-1, pos[j]-1).Draw(t, "ev.node")
+			p.Events[j].Node = &nd
+		} else {
+			nd := -1
+			p.Events[j].Node = &nd
+		}
+		if rapid.IntRange(0, 2).Draw(t, "ev.open") == 0 {
+			order = append(order, Act{"open", j})
+			openEv = append(openEv, j)
+		} else {
+			order = append(order, Act{"event", j})
+		}
+		closeSome(false)
+	}
+	for si < len(p.Steps) {
+		order = append(order, Act{"step", si})
+		si++
+	}
+	closeSome(true)
+	p.Order = order
 	return p
 }
